@@ -31,7 +31,7 @@ static uint32_t n_proc; static uint32_t proc_id[QMAX + 1]; static uint8_t proc_e
 static uint8_t stop_phase;                /* 0 not requested, 1 requested (marker pending), 2 complete */
 static uint32_t cur_sub;                  /* id of the line being submitted right now (0 = the stop marker) */
 static uint8_t running;                   /* the logger thread is inside operator() */
-uint8_t cx_act[2 * NLINES + 8]; uint32_t cx_nact; uint8_t cx_en[NLINES + 1]; uint32_t cx_nproc; uint32_t cx_proc[QMAX + 1]; uint8_t cx_ret_bad, cx_dropped; uint32_t cx_nlines = NLINES;
+uint8_t cx_act[2 * NLINES + 8]; uint32_t cx_nact; uint8_t cx_en[NLINES + 1]; uint32_t cx_nproc; uint32_t cx_proc[QMAX + 1]; uint8_t cx_ret_bad, cx_dropped; uint32_t cx_nlines = NLINES; uint8_t cx_t0[NLINES + 1], cx_t1[NLINES + 1], cx_tlen[NLINES + 1];
 
 uint8_t st_q_try_push(void *q, LE *src)
 {
@@ -63,11 +63,16 @@ void x_vf_processed(uint32_t val, uint32_t level, uint32_t empty)
 /* one producer step: submit the next line, or (part of) stop */
 static void step_submit(void)
 {
-  static const uint8_t txt[] = "x";
+  /* the text of the line is the solver's choice: 1..2 characters over { 'a', CR, LF } (texts made of line endings included) */
+  static const uint8_t alpha[3] = { 'a', '\r', '\n' };
+  uint8_t txt[2]; uint8_t c0 = nondet_u8(), c1 = nondet_u8(), tl = nondet_u8(); VF_ASSUME(c0 < 3 && c1 < 3 && tl >= 1 && tl <= 2);
+  txt[0] = alpha[c0]; txt[1] = alpha[c1];
   uint32_t id = ++n_sub; uint8_t en = nondet_bool();
   sub_enabled[id] = en; cx_en[id] = en; sub_before_stop[id] = (stop_phase == 0);
+  cx_t0[id] = txt[0]; cx_t1[id] = txt[1]; cx_tlen[id] = tl;
   cur_sub = id;
-  sub_ret[id] = vf_lg_send(&the_lg, (uint8_t*)txt, 1, en ? 1 : 0 /* Info enabled, Debug disabled */, id) & 1;
+  if (tl == 1) sub_ret[id] = vf_lg_send(&the_lg, txt, 1, en ? 1 : 0 /* Info enabled, Debug disabled */, id) & 1;      /* constant lengths (case split) */
+  else sub_ret[id] = vf_lg_send(&the_lg, txt, 2, en ? 1 : 0, id) & 1;
   cur_sub = 0;
 }
 static void sched(int must)
